@@ -286,7 +286,7 @@ def _canon_spelling(s):
     return (sign, ip, fp if (fp or m.group(3) is None) else '0' if False else fp, ex, m.group(3) is not None)
 
 
-@contract(ParseMCNPCell.parse_one_cell_worker, props=['C09'], name='ParseMCNPCell.material-and-density-of-a-cell',
+@contract(ParseMCNPCell.parse_one_cell_worker, props=['C09', 'C15'], name='ParseMCNPCell.material-and-density-of-a-cell',
           status='B')
 class _ParseMat:
     """Material number and *normalised* density of a parsed cell: from the card, or from the MAT= / RHO= overrides of a
